@@ -163,7 +163,9 @@ func NewRedisOutput(cfg RedisOutputConfig) *RedisOutput {
 	ro.outFilter.InsertCmdBlackList(filter.NoRouteCmds, true)
 	ro.outFilter.InsertCmdBlackList(cfg.Filter.CmdBlacklist, true)
 
-	ro.outFilter.InsertPrefixKeyBlackList([]string{config.CheckpointKey, config.NamespacePrefixKey})
+	// the bidirectional stream parser lets its own namespace through (see parseAofReplayUnits) : it has to see
+	// markers and records to recognise mirrored transactions; every other path must not forward them
+	ro.outFilter.InsertPrefixKeyBlackList([]string{config.CheckpointKey, config.NamespacePrefixKey, checkpoint.BisyncKeyPrefix + ":"})
 	keyFilter := cfg.Filter.KeyFilter
 	if keyFilter != nil {
 		ro.outFilter.InsertPrefixKeyBlackList(keyFilter.PrefixKeyBlacklist)
